@@ -8,7 +8,7 @@
 // state satisfies it); K=3 cross-checks that this invariant is reachable.
 // The wrapped reader/writer is a logging stub that succeeds or fails with a
 // symbolic error code at every call.
-//@tu unwind=12
+//@tu inline=1 unwind=12
 #include "vrt.h"
 #include <nop/status.h>
 #include <nop/utility/bounded_reader.h>
